@@ -29,7 +29,7 @@ class Unit:
     def __init__(self, name, props, tu, roots, target, contracts, harness=None, replace=(), stops=(), unwind=None,
                  defines=(), quick_defines=(), thorough_defines=(), tiers=("quick", "thorough"), replay=None,
                  kind="proof", bound_note="", timeout=None, extra_cbmc=(), loop_contracts=False, trusted=(),
-                 note="", mutants=(), solver=None, object_bits=None, no_canary=False, known=()):
+                 note="", mutants=(), solver=None, object_bits=None, no_canary=False, known=(), spec_target=False):
         self.name = name
         self.props = list(props)
         self.tu = tu
@@ -57,6 +57,7 @@ class Unit:
         self.object_bits = object_bits
         self.no_canary = no_canary
         self.known = list(known)
+        self.spec_target = spec_target   # target is a lemma defined in the contracts header, not a lowered function
 
 
 class Undecided(Exception):
@@ -125,6 +126,8 @@ class Runner:
         os.makedirs(d, exist_ok=True)
         lowc, meta, lower_s = self.lower(unit, d)
         fn_by_c = {f["cname"]: f for f in meta["functions"]}
+        if unit.spec_target:
+            fn_by_c[unit.target] = {"cname": unit.target, "qname": "(spec lemma) " + unit.target, "loc": unit.contracts, "defined": True, "params": [], "pdecls": []}
         if unit.target not in fn_by_c:
             raise Undecided("target %s not in lowered closure of %s (renamed?)" % (unit.target, unit.name))
         if not fn_by_c[unit.target]["defined"]:
@@ -136,7 +139,7 @@ class Runner:
         ctext = open(os.path.join(VERIF, unit.contracts)).read()
         for mname in re.findall(r"#define\s+CONTRACT_(\w+)", ctext):
             pass  # contracts headers are shared between units: unknown names are fine here, checked per target below
-        if not re.search(r"#define\s+CONTRACT_%s\b" % re.escape(unit.target), ctext) and not self._contract_in_includes(unit, ctext):
+        if not unit.spec_target and not re.search(r"#define\s+CONTRACT_%s\b" % re.escape(unit.target), ctext) and not self._contract_in_includes(unit, ctext):
             raise Undecided("no contract for target %s in %s" % (unit.target, unit.contracts))
         text = open(lowc).read()
         if mutate is not None:
@@ -158,8 +161,12 @@ class Runner:
                 fi = fn_by_c[unit.target]
                 f.write("#ifndef VERIF_GHOST_INIT\n#define VERIF_GHOST_INIT()\n#endif\n")
                 f.write("void HARNESS(void) {\n")
+                f.write("  unsigned char nondet_uchar(void);\n")
                 for dcl in fi["pdecls"]:
-                    f.write("  %s;\n" % dcl)
+                    if dcl.startswith("_Bool ") and "*" not in dcl:
+                        f.write("  %s = (nondet_uchar() & 1);  /* a valid bool: 0 or 1 */\n" % dcl)
+                    else:
+                        f.write("  %s;\n" % dcl)
                 f.write("  VERIF_GHOST_INIT();\n")
                 f.write("  %s(%s);\n  VERIF_CANARY();\n}\n" % (unit.target, ", ".join(fi["params"])))
         defs = list(unit.defines) + list(unit.quick_defines if self.tier == "quick" else unit.thorough_defines) + list(extra_defines)
@@ -215,7 +222,7 @@ class Runner:
             if any(p["status"] != "FAILURE" for p in canary):
                 raise Undecided("vacuity: canary after the call is unreachable in %s (contradictory requires/assumptions)" % tag)
         post = [p for p in oblig if "ensures clause" in p["description"] or ".postcondition" in p["property"]]
-        n_ens = self._count_ensures(unit, ctext)
+        n_ens = 1 if unit.spec_target else self._count_ensures(unit, ctext)
         if n_ens and len(post) < 1:
             raise Undecided("no postcondition obligations generated for %s" % tag)
         if unit.loop_contracts and not any("loop invariant" in p["description"].lower() for p in oblig):
@@ -278,7 +285,7 @@ class Runner:
                         trace = p["trace"]
         if trace is None:
             return None, "no trace in cbmc output"
-        params = [f for f in res["functions"] if f["cname"] == unit.target][0]["params"]
+        params = ([f for f in res["functions"] if f["cname"] == unit.target] or [{"params": []}])[0]["params"]
         state, snap = {}, None
         seen_params = None
         import collections
